@@ -309,8 +309,8 @@ def check_nanobind(D, ms, out, violate, stats, lib_rs, disabled):
     for m in ms:
         if f"{m['owner']}::{m['name']}" in disabled or m["owner"] in disabled:
             continue
-        if any(t[0] == "slice" for t in m["ret"]):
-            continue                                     # strings are copied
+        if any(t[0] == "slice" and t[3] != "u8" for t in m["ret"]):
+            continue                                     # strings are copied; primitive slices are zero-copy arrays and need keep_alive
         mm = re.search(r'\.def(?:_static)?\("%s", &%s::%s\b([^\n]*)' % (m["name"], m["owner"], m["name"]), text)
         if not mm:
             continue
